@@ -283,7 +283,7 @@ def raw_function(obj):
     if isinstance(obj, (staticmethod, classmethod)):
         return obj.__func__
     if isinstance(obj, property):
-        obj = obj.fget       # may itself be an @contextmanager function (`@property @contextmanager def as_lines`)
+        return raw_function(obj.fget)      # e.g. a property whose getter is a @contextmanager generator
     if isinstance(obj, types.MethodType):
         return obj.__func__
     if hasattr(obj, '__wrapped__') and isinstance(obj, types.FunctionType) and \
